@@ -72,7 +72,8 @@ class BaseCommand(Edge):
         # placeholders.
         self.cmds = [context.env.run_arguments(self._expand_cmd(line))
                      for line in cmds]
-        self.env = environment or {}
+        # (a copy: the script may go on using its dict for the next step)
+        self.env = dict(environment or {})
 
     @staticmethod
     def convert_args(context, kwargs):
